@@ -328,7 +328,7 @@ def main():
         overall = 240 + budget * (1 + len(hs) // JOBS)
         rc, out, kani_wall, timed_out, killed = run_cmd(cmd, WOVEN, overall, KANI_ENV,
                                                         os.path.join(BUILD, 'kani-%s.log' % prop))
-        if 'error: could not compile' in out or 'error[E' in out or 'Failed to execute cargo' in out:
+        if 'error: could not compile' in out or 'error[E' in out or 'Failed to execute cargo' in out or 'Failed to match the following harness' in out:
             errs = re.findall(r'^error.*$', out, re.M)[:6]
             tooling('woven tree does not compile under Kani: %s' % ' | '.join(errs))
         results = parse_terse(out, [h.name for h in hs])
@@ -455,7 +455,7 @@ def full_name(h):
     parts = rel[4:-3].split('/')
     if parts[-1] in ('mod', 'lib'):
         parts = parts[:-1]
-    return '::'.join(parts + ['verif_dev' if h.name.startswith('vk_dev_') else 'verif_kani', h.name])
+    return '::'.join(parts + [h.mod, h.name])
 
 
 def replay_kani(h, descs, prop):
